@@ -100,7 +100,7 @@ func TestDescJSONAndDeterminism(t *testing.T) {
 		}
 	}
 	want := `{"seed":5,"blocks":[{"type":"dyn","lshape":"flat","dshape":"none","toks":"lits","n":3,"repeat":true,` +
-		`"cross":false,"fullhclen":false,"maxh":false,"sync":true}],"fault":{"kind":"missingEOB","block":0}}`
+		`"cross":false,"fullhclen":false,"maxh":false,"sync":true,"worstcl":false,"alt258":false}],"fault":{"kind":"missingEOB","block":0}}`
 	d := Desc{Seed: 5, Blocks: []BlockDesc{{Type: "dyn", LShape: "flat", DShape: "none", Toks: "lits", N: 3, Repeat: true, SyncBefore: true}},
 		Fault: &Fault{Kind: "missingEOB"}}
 	if got := descJSON(d); got != want {
@@ -355,5 +355,49 @@ func TestDescHeaderShapes(t *testing.T) {
 		if seen[k] == 0 {
 			t.Errorf("variant %q never produced", k)
 		}
+	}
+}
+
+// The longest dynamic header the format allows, and the second spelling of
+// length 258, are accepted by compress/flate and decode to the expected bytes.
+func TestWorstCLAndAlt258(t *testing.T) {
+	longest := 0
+	for seed := int64(1); seed <= 60; seed++ {
+		for _, typ := range []string{"dyn", "fixed"} {
+			d := Desc{Seed: seed, Blocks: []BlockDesc{
+				{Type: typ, LShape: []string{"flat", "skew", "random", "freq"}[seed%4], DShape: []string{"flat", "random", "freq"}[seed%3],
+					Toks: []string{"long", "near", "mixed"}[seed%3], N: 40 + int(seed), MaxH: seed%2 == 0, WorstCL: true, Alt258: true},
+				{Type: "stored", N: 3}}}
+			stream, want, err := d.Build()
+			if err != nil {
+				t.Fatal(err)
+			}
+			got, err := io.ReadAll(flate.NewReader(bytes.NewReader(stream)))
+			if err != nil || !bytes.Equal(got, want) {
+				t.Fatalf("seed %d %s: compress/flate: err=%v, %d bytes, want %d", seed, typ, err, len(got), len(want))
+			}
+			r := refinflate.Inflate(stream, refinflate.Options{})
+			if r.State != "done" || !bytes.Equal(r.Out, want) {
+				t.Fatalf("seed %d %s: reference: %s %s", seed, typ, r.State, r.Err)
+			}
+			if typ == "dyn" {
+				longest = max(longest, int(r.Blocks[0].HdrBits))
+			}
+		}
+	}
+	if longest < 2280 {
+		t.Errorf("longest header %d bits, want the format's maximum of 2286 (HLIT=286, HDIST=30, no runs, 7-bit code-length codes)", longest)
+	}
+	// the spelling is really used
+	var w BitWriter
+	Fixed(&w, true, []Tok{Lit('a'), {Lit: -1, Len: 258, Dist: 1, Alt: true}})
+	var w2 BitWriter
+	Fixed(&w2, true, []Tok{Lit('a'), Match(258, 1)})
+	if bytes.Equal(w.Bytes(), w2.Bytes()) {
+		t.Error("Alt has no effect")
+	}
+	got, err := io.ReadAll(flate.NewReader(bytes.NewReader(w.Bytes())))
+	if err != nil || len(got) != 259 {
+		t.Errorf("284+31: compress/flate gives %d bytes, %v", len(got), err)
 	}
 }
